@@ -6,6 +6,8 @@ import Sm9.Proofs.MontSop
 import Sm9.Proofs.Consts
 import Sm9.Proofs.FqField
 import Sm9.Model.Api
+import Sm9.Proofs.LibScalar
+import Sm9.Proofs.FieldProgram
 /-!
 # C07 — Field elements always stay canonical; equality is value equality
 Limb level: `Canon m x := x < m`.  Every arithmetic step of the limb model maps canonical
@@ -19,6 +21,48 @@ every canonical non-zero input; every constructor (`new`, strict / reducing `fro
 canonical value, and so does the interleaved `sum_of_products` behind every Fq2/Fq4 product.
 Histories (any order of public calls) are additionally exercised by register-machine programs
 on the real crate.
+
+## Any sequence of public operations (one induction over an operation language)
+
+`Sm9/Model/Prog.lean` defines the instruction set `FInstr` of the field programs of the line protocol
+(`const slice str hash random add sub mul pow neg dup inv sqrt setbit`: the public `Fr` / `Fq` API of
+lib.rs) and ONE register machine `fstep O` / `frun O`, instantiated
+* at the limb level, `FrProg.frunL` / `FqProg.frunL`: a register is the stored Montgomery
+  representative, an instruction runs the limb-model function the `lib.rs` wrapper calls
+  (`lib_from_slice`, `Fp.from_str`, `FrL.from_hash`, `Fp.random`, `Fp.add/sub/mul/neg/pow`,
+  `Fp.inverse`, `FqL.sqrt`, `Fp.set_bit`; `Sm9/Gen/LimbEquiv.lean` proves these equal to the
+  definitions translated from the Rust source), and
+* at the value level, `FrProg.frunV` / `FqProg.frunV`: what the differential driver runs
+  (`Sm9/Driver/Prog.lean` only parses the text of a step into an `FInstr`).
+A `None` result of the API (bad length, non-digit, `inverse` of 0, `sqrt` of a non-square) leaves zero.
+
+Proved for **every** program `prog : List FInstr` (any length, any order), for Fr and for Fq, with
+`CanonRel x a := x < modulus ∧ ofMont x = a` (`ofMont x` = the field element `x · R⁻¹`):
+
+* `fr_program_fails_iff` / `fq_program_fails_iff` (no hypothesis): the limb-level machine fails exactly
+  when the value-level machine fails, and (`fr_program_fails_iff_wf`) that happens exactly when the
+  program is not `WellFormed` — a decidable, purely syntactic condition: a register index that does
+  not refer to an earlier step, an instruction the field does not have (`sqrt` for Fr; `hash random
+  setbit` for Fq), a `random` script that is not 8 words long, a `const` literal beyond 64 bytes.
+  In particular no limb-model function panics and **the fuel of `inverse` (binary extended Euclid)
+  always suffices** along a run (`fr_program_total`, `fr_inverse_total`).
+* `fr_program_refines` / `fq_program_refines`: if the value-level machine runs, the limb-level machine
+  runs and `List.Forall₂ CanonRel` relates the two register files; `fr_program_canonical`: every limb
+  register after any program is `< modulus`.
+* observations are functions of the denoted field element: `fr_observe_eq` (equality of raw limbs —
+  the derived `==` — ⇔ equality of the field elements), `fr_observe_is_zero`, `fr_observe_to_slice`,
+  `fq_observe_is_even`; `fr_canon_unique`: the stored limbs themselves are determined by the field
+  element, hence (`fr_step_congr`) any further instruction applied to two register files denoting
+  the same values gives related — in fact identical — results; `fr_canon_fresh`: the value decoded
+  afresh from `to_slice` is that unique representative.  `fr_program_observe` packages these for the
+  registers of a run.
+
+**Hypotheses that remain / modelling conventions**: `random` takes the RNG output as a script of
+exactly 8 words (`next_u64` draws, limb 0 first; any word values); the exponent of `pow` is a
+register (as in `Fr::pow(self, exp: Fr)`), not a literal; `const v` stands for `from_slice` of the
+32-byte (64-byte if `v ≥ 2^256`) big-endian encoding of `v`; `str` takes the already UTF-8-decoded
+characters.  Field elements inside Fq2/Fq4/Fq12 and point coordinates are not registers of this
+machine (they are covered by the step theorems above and by C16 for points).
 -/
 set_option maxRecDepth 100000
 namespace Sm9.C07
@@ -88,5 +132,132 @@ theorem fr_is_zero_iff (x : Fr) : x.is_zero = true ↔ x = 0 := Fr.is_zero_iff x
 /-- the D1 witness, on the repaired code: setting bits 255 and 254 of one stays canonical -/
 example : Fp.set_bit paramsR (Fp.set_bit paramsR paramsR.one 255 true) 254 true < paramsR.modulus := by
   decide +kernel
+
+/-! ## any sequence of public operations: limb-level machine vs value-level machine -/
+
+/-- what the relation says -/
+theorem fr_canonRel_iff (x : Nat) (a : Fr) : FrProg.CanonRel x a ↔ (Canon paramsR.modulus x ∧ Fr.ofMont x = a) := Iff.rfl
+theorem fq_canonRel_iff (x : Nat) (a : Fq) : FqProg.CanonRel x a ↔ (Canon paramsQ.modulus x ∧ Fq.ofMont x = a) := Iff.rfl
+
+/-- main theorem, Fr: if the value-level machine runs, so does the limb-level machine, and limb
+    register k is the canonical representative of value register k -/
+theorem fr_program_refines (prog : List FInstr) (ds : List Fr) (h : FrProg.frunV prog = some ds) :
+    ∃ regs, FrProg.frunL prog = some regs ∧ List.Forall₂ FrProg.CanonRel regs ds :=
+  FrProg.frun_refines prog ds h
+theorem fq_program_refines (prog : List FInstr) (ds : List Fq) (h : FqProg.frunV prog = some ds) :
+    ∃ regs, FqProg.frunL prog = some regs ∧ List.Forall₂ FqProg.CanonRel regs ds :=
+  FqProg.frun_refines prog ds h
+
+/-- the machines fail on exactly the same programs (no panic, no fuel exhaustion at the limb level) -/
+theorem fr_program_fails_iff (prog : List FInstr) : FrProg.frunL prog = none ↔ FrProg.frunV prog = none :=
+  FrProg.frun_fails_iff prog
+theorem fq_program_fails_iff (prog : List FInstr) : FqProg.frunL prog = none ↔ FqProg.frunV prog = none :=
+  FqProg.frun_fails_iff prog
+
+/-- … namely on the programs that are not well formed (decidable, syntactic) -/
+theorem fr_program_fails_iff_wf (prog : List FInstr) : FrProg.frunL prog = none ↔ ¬ FrProg.WellFormed prog :=
+  (FrProg.frun_fails_iff prog).trans (FrProg.frunV_fails_iff_wf prog)
+theorem fq_program_fails_iff_wf (prog : List FInstr) : FqProg.frunL prog = none ↔ ¬ FqProg.WellFormed prog :=
+  (FqProg.frun_fails_iff prog).trans (FqProg.frunV_fails_iff_wf prog)
+
+/-- every register after any sequence of public operations is canonical -/
+theorem fr_program_canonical (prog : List FInstr) (regs : List Nat) (h : FrProg.frunL prog = some regs) :
+    ∀ x ∈ regs, Canon paramsR.modulus x := FrProg.frun_canonical prog regs h
+theorem fq_program_canonical (prog : List FInstr) (regs : List Nat) (h : FqProg.frunL prog = some regs) :
+    ∀ x ∈ regs, Canon paramsQ.modulus x := FqProg.frun_canonical prog regs h
+
+/-- totality on well-formed programs -/
+theorem fr_program_total (prog : List FInstr) (hwf : FrProg.WellFormed prog) :
+    ∃ regs ds, FrProg.frunL prog = some regs ∧ FrProg.frunV prog = some ds ∧
+      List.Forall₂ FrProg.CanonRel regs ds ∧ regs.length = prog.length ∧ ∀ x ∈ regs, x < paramsR.modulus :=
+  FrProg.frunL_total prog hwf
+theorem fq_program_total (prog : List FInstr) (hwf : FqProg.WellFormed prog) :
+    ∃ regs ds, FqProg.frunL prog = some regs ∧ FqProg.frunV prog = some ds ∧
+      List.Forall₂ FqProg.CanonRel regs ds ∧ regs.length = prog.length ∧ ∀ x ∈ regs, x < paramsQ.modulus :=
+  FqProg.frunL_total prog hwf
+
+/-- the fuel of `inverse` suffices on every canonical input -/
+theorem fr_inverse_total (x : Nat) (hx : Canon paramsR.modulus x) :
+    ∃ y, FProg.invL paramsR x = some y ∧ y < paramsR.modulus ∧ Fr.ofMont y = ((Fr.ofMont x).inverse).getD 0 :=
+  FrProg.invL_total x hx
+theorem fq_inverse_total (x : Nat) (hx : Canon paramsQ.modulus x) :
+    ∃ y, FProg.invL paramsQ x = some y ∧ y < paramsQ.modulus ∧ Fq.ofMont y = ((Fq.ofMont x).inverse).getD 0 :=
+  FqProg.invL_total x hx
+
+/-- the step lemma: from related register files, any instruction fails in both machines or yields
+    related register files -/
+theorem fr_step_refines {regs : List Nat} {ds : List Fr} (h : List.Forall₂ FrProg.CanonRel regs ds) (ins : FInstr) :
+    OptRel (List.Forall₂ FrProg.CanonRel) (FrProg.fstepL regs ins) (FrProg.fstepV ds ins) :=
+  FrProg.fstep_refines h ins
+theorem fq_step_refines {regs : List Nat} {ds : List Fq} (h : List.Forall₂ FqProg.CanonRel regs ds) (ins : FInstr) :
+    OptRel (List.Forall₂ FqProg.CanonRel) (FqProg.fstepL regs ins) (FqProg.fstepV ds ins) :=
+  FqProg.fstep_refines h ins
+
+/-! observations -/
+
+/-- raw-limb equality (the derived `==`) ⇔ equality of the denoted field elements -/
+theorem fr_observe_eq {x y : Nat} {a b : Fr} (hx : FrProg.CanonRel x a) (hy : FrProg.CanonRel y b) :
+    x = y ↔ a = b := FrProg.observe_eq hx hy
+theorem fq_observe_eq {x y : Nat} {a b : Fq} (hx : FqProg.CanonRel x a) (hy : FqProg.CanonRel y b) :
+    x = y ↔ a = b := FqProg.observe_eq hx hy
+theorem fr_observe_is_zero {x : Nat} {a : Fr} (hx : FrProg.CanonRel x a) : Fp.is_zero x = a.is_zero :=
+  FrProg.observe_is_zero hx
+theorem fq_observe_is_zero {x : Nat} {a : Fq} (hx : FqProg.CanonRel x a) : Fp.is_zero x = a.is_zero :=
+  FqProg.observe_is_zero hx
+theorem fr_observe_to_slice {x : Nat} {a : Fr} (hx : FrProg.CanonRel x a) :
+    Fp.to_slice paramsR x = Api.frToSlice a := FrProg.observe_to_slice hx
+theorem fq_observe_to_slice {x : Nat} {a : Fq} (hx : FqProg.CanonRel x a) :
+    Fp.to_slice paramsQ x = Api.fqToSlice a := FqProg.observe_to_slice hx
+theorem fq_observe_is_even {x : Nat} {a : Fq} (hx : FqProg.CanonRel x a) :
+    Big.is_even (Fp.into_u256 paramsQ x) = a.is_even := FqProg.observe_is_even hx
+/-- the stored limbs are a function of the field element -/
+theorem fr_canon_unique {x y : Nat} {a : Fr} (hx : FrProg.CanonRel x a) (hy : FrProg.CanonRel y a) : x = y :=
+  FrProg.canonRel_unique hx hy
+theorem fq_canon_unique {x y : Nat} {a : Fq} (hx : FqProg.CanonRel x a) (hy : FqProg.CanonRel y a) : x = y :=
+  FqProg.canonRel_unique hx hy
+theorem fr_canon_fresh (a : Fr) : FrProg.CanonRel (Fp.new_mul_factor paramsR a.val) a := FrProg.canonRel_fresh a
+theorem fq_canon_fresh (a : Fq) : FqProg.CanonRel (Fp.new_mul_factor paramsQ a.val) a := FqProg.canonRel_fresh a
+/-- any further instruction applied to two register files denoting the same values -/
+theorem fr_step_congr {regs regs' : List Nat} {ds : List Fr} (h : List.Forall₂ FrProg.CanonRel regs ds)
+    (h' : List.Forall₂ FrProg.CanonRel regs' ds) (ins : FInstr) :
+    OptRel (List.Forall₂ FrProg.CanonRel) (FrProg.fstepL regs ins) (FrProg.fstepV ds ins) ∧
+    OptRel (List.Forall₂ FrProg.CanonRel) (FrProg.fstepL regs' ins) (FrProg.fstepV ds ins) ∧
+    FrProg.fstepL regs ins = FrProg.fstepL regs' ins := FrProg.step_congr h h' ins
+theorem fq_step_congr {regs regs' : List Nat} {ds : List Fq} (h : List.Forall₂ FqProg.CanonRel regs ds)
+    (h' : List.Forall₂ FqProg.CanonRel regs' ds) (ins : FInstr) :
+    OptRel (List.Forall₂ FqProg.CanonRel) (FqProg.fstepL regs ins) (FqProg.fstepV ds ins) ∧
+    OptRel (List.Forall₂ FqProg.CanonRel) (FqProg.fstepL regs' ins) (FqProg.fstepV ds ins) ∧
+    FqProg.fstepL regs ins = FqProg.fstepL regs' ins := FqProg.step_congr h h' ins
+/-- the observations of the registers of a run -/
+theorem fr_program_observe (prog : List FInstr) (regs : List Nat) (h : FrProg.frunL prog = some regs) :
+    ∃ ds, FrProg.frunV prog = some ds ∧ ds.length = regs.length ∧
+      ∀ (i j x y : Nat), regs[i]? = some x → regs[j]? = some y → ∃ a b, ds[i]? = some a ∧ ds[j]? = some b ∧
+        x < paramsR.modulus ∧ Fr.ofMont x = a ∧
+        FProg.eqObs x y = decide (a = b) ∧ FProg.isZeroObs x = a.is_zero ∧
+        FProg.toSliceObs paramsR x = Api.frToSlice a := FrProg.frun_observe prog regs h
+theorem fq_program_observe (prog : List FInstr) (regs : List Nat) (h : FqProg.frunL prog = some regs) :
+    ∃ ds, FqProg.frunV prog = some ds ∧ ds.length = regs.length ∧
+      ∀ (i j x y : Nat), regs[i]? = some x → regs[j]? = some y → ∃ a b, ds[i]? = some a ∧ ds[j]? = some b ∧
+        x < paramsQ.modulus ∧ Fq.ofMont x = a ∧
+        FProg.eqObs x y = decide (a = b) ∧ FProg.isZeroObs x = a.is_zero ∧
+        FProg.toSliceObs paramsQ x = Api.fqToSlice a ∧ FProg.isEvenObs x = a.is_even :=
+  FqProg.frun_observe prog regs h
+
+/-- non-vacuity: the D1 history (set bits 255 and 254 of one) followed by every kind of Fr operation,
+    including `inverse` of zero; the limb-level machine runs and all registers are canonical -/
+def exampleFr : List FInstr :=
+  [.str ['1'], .setbit 0 255 true, .setbit 1 254 true, .hash [1, 2], .random [1, 2, 3, 4, 5, 6, 7, 8],
+   .mul 2 3, .pow 5 4, .sub 0 0, .inv 7, .inv 6, .neg 9, .slice [255], .add 10 11, .const 7, .dup 13]
+example : ∃ regs, FrProg.frunL exampleFr = some regs ∧ regs.length = 15 ∧ ∀ x ∈ regs, Canon paramsR.modulus x := by
+  obtain ⟨regs, _, h1, _, _, h4, h5⟩ := FrProg.frunL_total exampleFr (by decide)
+  exact ⟨regs, h1, h4, h5⟩
+def exampleFq : List FInstr :=
+  [.const 4, .sqrt 0, .neg 1, .sqrt 2, .inv 3, .str ['9', 'x'], .pow 1 0, .sub 6 6, .inv 7]
+example : ∃ regs, FqProg.frunL exampleFq = some regs ∧ ∀ x ∈ regs, Canon paramsQ.modulus x := by
+  obtain ⟨regs, _, h1, _, _, _, h5⟩ := FqProg.frunL_total exampleFq (by decide)
+  exact ⟨regs, h1, h5⟩
+/-- the machines fail together: `sqrt` does not exist for Fr; a forward reference -/
+example : FrProg.frunL [.const 4, .sqrt 0] = none := (fr_program_fails_iff_wf [.const 4, .sqrt 0]).2 (by decide)
+example : FqProg.frunL [.const 4, .add 0 1] = none := (fq_program_fails_iff_wf [.const 4, .add 0 1]).2 (by decide)
 
 end Sm9.C07
